@@ -226,7 +226,8 @@ def action_forms(v):
            ("vacation-days", ("vacation", ":days", 7, v)), ("vacation-seconds", ("vacation", ":seconds", 600, v)),
            ("vacation-from", ("vacation", ":from", v, "reason")), ("vacation-addresses", ("vacation", ":addresses", [v, "b@example.org"], "reason")),
            ("vacation-handle", ("vacation", ":handle", v, "reason")), ("vacation-mime", ("vacation", ":mime", v)),
-           ("keep-flags", ("keep", ":flags", [v]))]
+           ("keep-flags", ("keep", ":flags", [v])),
+           ("fileinto-copy-create", ("fileinto", ":copy", ":create", v)), ("fileinto-create-copy", ("fileinto", ":create", ":copy", v))]
     return out
 
 
@@ -289,6 +290,50 @@ def bounded_generated_sets(pid, tier, seed):
                     findings.note((pid, "value-changes-structure.%s.%s" % (kind, vclass)), repr(form), "token structure differs from the benign rendering: %r" % text[-110:])
                 elif len(samples) < 3 and v != BENIGN:
                     samples.append({"definition": repr(form), "script_tail": text[-70:], "verdict": "accepted, strictly valid, same structure as with a benign value"})
+    # several conditions per filter (anyof / allof) and several filters with different extensions, edited afterwards
+    from sievelib.factory import FiltersSet
+    cf = [c for k, c in condition_forms(BENIGN) if k not in ("header-name",)]
+    af = [a for k, a in action_forms(BENIGN) if k not in ("keep-flags", "fileinto-flags", "vacation-seconds", "vacation-addresses")]
+    for i in range(len(cf)):
+        for n in (2, 3):
+            for mt in ("anyof", "allof"):
+                conds = [cf[(i + d) % len(cf)] for d in range(n)]
+                evals += 1
+                distinct.add(("multi", i, n, mt))
+                try:
+                    fs = FiltersSet("t")
+                    fs.addfilter("r", conds, [af[i % len(af)], af[(i + 1) % len(af)]], mt)
+                    text = str(fs)
+                except Exception as e:
+                    findings.note((pid, "build-raises.multi-condition"), repr(conds), "%s: %s" % (type(e).__name__, e))
+                    continue
+                r = real_parse(text)
+                v2 = ref.verdict(text) if r["verdict"] is True else None
+                if r["verdict"] is not True or v2.status != "valid":
+                    findings.note((pid, "own-output-rejected.multi-condition" if r["verdict"] is not True else "not-strictly-valid.multi-condition"),
+                                  repr(conds), "%s ; script: %r" % (r.get("error") if r["verdict"] is not True else v2.reason, text[-120:]))
+    for i in range(len(af)):
+        for j in range(len(af)):
+            if i == j or (i + j) % 3:
+                continue
+            evals += 1
+            distinct.add(("multi-filter", i, j))
+            try:
+                fs = FiltersSet("t")
+                fs.addfilter("one", [("Subject", ":is", "x")], [af[i]])
+                fs.addfilter("two", [("Subject", ":is", "y")], [af[j]])
+                fs.disablefilter("two")
+                fs.updatefilter("one", "uno", [("Subject", ":contains", "z")], [af[(i + 1) % len(af)]])
+                fs.movefilter("two", "up")
+                text = str(fs)
+            except Exception as e:
+                findings.note((pid, "build-raises.multi-filter"), repr((af[i], af[j])), "%s: %s" % (type(e).__name__, e))
+                continue
+            r = real_parse(text)
+            v2 = ref.verdict(text) if r["verdict"] is True else None
+            if r["verdict"] is not True or v2.status != "valid":
+                findings.note((pid, "own-output-rejected.multi-filter" if r["verdict"] is not True else "not-strictly-valid.multi-filter"),
+                              repr((af[i], af[j])), "%s ; script: %r" % (r.get("error") if r["verdict"] is not True else v2.reason, text[-160:]))
     return {"name": "generated-sets", "bound": "%d condition kinds + %d action kinds x %d values (quotes, backslashes, commas, brackets, "
             "newlines, non-ASCII, injection attempt): %d sets" % (len(condition_forms("v")), len(action_forms("v")), len(values) + 1, evals),
             "rule": "distinct = (kind, value)", "evaluations": evals, "distinct": len(distinct), "samples": samples, "exhaustive": True,
@@ -383,15 +428,29 @@ def bounded_saveload(pid, tier, seed):
     descs = [None, "", "a description", "déjà vu", "with # hash", "colon: inside"]
     markers = [("# Filter: ", "# Description: "), ("# rule:", "# desc:"), ("#N=", "#D="), ("# [filter] ", "# (desc) "), ("# name? ", "# note+ ")]
     conds = [c for k, c in condition_forms("v") if k not in ("header-name",)]
-    acts = [a for k, a in action_forms("v") if k not in ("keep-flags", "fileinto-flags", "vacation-seconds")]
+    acts = [a for k, a in action_forms("v") if k not in ("keep-flags", "fileinto-flags", "vacation-seconds", "vacation-addresses")]
     n_seq = 150 if tier == "quick" else 1500
-    for si in range(n_seq):
+    # exhaustive part: every sequence of 3 operations (after adding two filters) over two names
+    small_ops = [(o, n) for o in ("disable", "enable", "update-same", "update-rename", "move", "remove", "replace") for n in ("a", "b b")]
+    scripted = [[("add", "a"), ("add", "b b")] + list(seq) for seq in itertools.product(small_ops, repeat=2 if tier == "quick" else 3)]
+    for si in range(n_seq + len(scripted)):
         mk = markers[si % len(markers)]
         fs = FiltersSet("t", mk[0], mk[1])
         used = []
-        for step_i in range(rng.randint(1, 5)):
-            op = rng.choice(["add", "add", "add", "update", "disable", "enable", "move", "remove", "replace"])
-            nm = rng.choice(names)
+        plan = scripted[si - n_seq] if si >= n_seq else None
+        for step_i in range(len(plan) if plan else rng.randint(1, 5)):
+            if plan:
+                op, nm = plan[step_i]
+                if op == "update-same":
+                    op, newn = "update", nm
+                elif op == "update-rename":
+                    op, newn = "update", "caf\u00e9"
+                else:
+                    newn = None
+            else:
+                op = rng.choice(["add", "add", "add", "update", "disable", "enable", "move", "remove", "replace"])
+                nm = rng.choice(names)
+                newn = None
             try:
                 if op == "add":
                     fs.addfilter(nm, [rng.choice(conds)], [rng.choice(acts)], rng.choice(["anyof", "allof"]))
@@ -399,7 +458,7 @@ def bounded_saveload(pid, tier, seed):
                     if d is not None:
                         fs.filters[-1]["description"] = d
                 elif op == "update":
-                    fs.updatefilter(nm, rng.choice(names), [rng.choice(conds)], [rng.choice(acts)])
+                    fs.updatefilter(nm, newn if newn is not None else rng.choice(names), [rng.choice(conds)], [rng.choice(acts)])
                 elif op == "disable":
                     fs.disablefilter(nm)
                 elif op == "enable":
@@ -449,7 +508,8 @@ def bounded_saveload(pid, tier, seed):
             findings.note((pid, "not-a-fixed-point"), text2[-120:], "third rendering differs")
         elif len(samples) < 2:
             samples.append({"names": [x[0] for x in a], "markers": list(mk), "verdict": "reloaded set equal; rendering is a fixed point"})
-    return {"name": "save-load", "bound": "%d seeded operation sequences (1-5 operations over %d names incl. non-ASCII and marker look-alikes, "
-            "%d descriptions, 3 marker-prefix pairs): %d non-empty sets saved and reloaded" % (n_seq, len(names), len(descs), evals),
+    n_seq = n_seq + len(scripted)
+    return {"name": "save-load", "bound": "%d operation sequences (all 2/3-operation sequences over two filters + seeded random ones ; 1-5 operations over %d names incl. non-ASCII and marker look-alikes, "
+            "%d descriptions, 5 marker-prefix pairs): %d non-empty sets saved and reloaded" % (n_seq, len(names), len(descs), evals),
             "rule": "distinct = operation sequence", "evaluations": evals, "distinct": evals, "samples": samples, "exhaustive": False,
             "violations": findings.violations(pid, "saveload", (pid,))}
